@@ -229,6 +229,24 @@ def run(ctx: Ctx) -> Result:
                                                    'expected': f'{want}: an item longer than stack_max_item_size or more than stack_max_items items end the authorization with False; anything within both limits is allowed',
                                                    'observed': str(got), 'how_to_run': './check C07 --tier quick'})
     vmrun.in_big_thread(auth_limits)
+    # no single instruction loops without end or grows an operand without bound: the zero-padding bitwise instructions on operands
+    # of different lengths, in both orders, end with an item as long as the longer operand
+    def bitops():
+        N = G.names()
+        for name in ('XOR', 'OR', 'AND'):
+            for la, lb in ((1, 3), (3, 1), (1, 2), (2, 1), (0, 2), (2, 0), (5, 5), (1, 64), (64, 1), (31, 32), (32, 31)):
+                a_ = bytes([0xf0]) * la; b_ = bytes([0xff]) * lb
+                script = (G.push(a_) if la else bytes([N['PUSH1'], 0])) + (G.push(b_) if lb else bytes([N['PUSH1'], 0])) + bytes([N[name]])
+                cfg_ = vmrun.Cfg(); cfg_.max_items = 4; cfg_.max_item_size = 64
+                res.note_case(('bitop', name, la, lb))
+                o = vmrun.run_impl(cfg_, {}, script)
+                f = vmrun.fields(o); top = f.get('stack', '-').split(',')[-1]
+                ln = 0 if top in ('e', '-') else len(top) // 2
+                if (o.startswith('ABORT') or f['status'] != 'OK' or ln != max(la, lb)) and len(res.violations) < 10:
+                    res.violations.append({'input': {'cfg': cfg_.line(), 'cache': '-', 'script': script.hex()},
+                                           'expected': f'{name} of a {la}-byte and a {lb}-byte item ends with an item of {max(la, lb)} bytes',
+                                           'observed': ('the instruction did not end within the wall-clock cap' if o.startswith('ABORT') else o[:120]), 'how_to_run': './check C07 --replay <this file>'})
+    vmrun.in_big_thread(bitops)
     return res
 
 
